@@ -548,19 +548,87 @@ def recognise_global_memo(model: Model, func: str) -> Optional[List[str]]:
             value_deps |= expr_deps(n.value)
     through_locals = any(isinstance(x, ast.Name) and x.id in local_deps for x in ast.walk(key_assign.value))
     if through_locals and n_value_stores:
-        # the key is built from local variables: judge by what the key and the stored values are computed from
-        for prm in params:
-            kd = {f for q, f in key_deps if q == prm}
-            vd = {f for q, f in value_deps if q == prm}
-            if WHOLE in kd or not vd:
-                continue
-            if WHOLE in vd:
-                problems.append(f"UNDECIDED: how the remembered value depends on `{prm}` is not resolved to components")
-                continue
-            missing = {u for u in vd if u not in kd}
-            if missing:
-                problems.append(f"the remembered value is computed from {prm}[{', '.join(repr(m) for m in sorted(missing, key=repr))}], which the key "
-                                f"`{core.src(key_assign.value)}` does not contain")
+        # The key is built from local variables.  Judge at the granularity of the key's ELEMENTS: a quantity is *determined* by
+        # the key if it is one of its elements, a constant / module-level name, or computed only from determined quantities.
+        # (Comparing which parameter fields key and value depend on is not enough: `quintant, orientation = f(cell["segment"],
+        # cell["origin"])` with only `quintant` in the key leaves `orientation` free although both depend on the same fields.)
+        elems = key_assign.value.elts if isinstance(key_assign.value, ast.Tuple) else [key_assign.value]
+        det_names = {e.id for e in elems if isinstance(e, ast.Name)} | {key_name}
+        det_exprs = {core.src(e) for e in elems}
+        id_owners = {core.src(e.value) for e in elems if isinstance(e, ast.Attribute) and e.attr in ("id", "index", "key")}
+        local_names = {x.id for x in ast.walk(fn) if isinstance(x, ast.Name) and isinstance(x.ctx, ast.Store)} - globs
+        defs: Dict[str, List[ast.AST]] = {}
+        for n in ast.walk(fn):
+            if isinstance(n, ast.Assign):
+                for t in n.targets:
+                    if isinstance(t, ast.Tuple) and isinstance(n.value, ast.Tuple) and len(t.elts) == len(n.value.elts):
+                        for tt, vv in zip(t.elts, n.value.elts):
+                            if isinstance(tt, ast.Name):
+                                defs.setdefault(tt.id, []).append(vv)
+                    else:
+                        for x in ast.walk(t):
+                            if isinstance(x, ast.Name) and isinstance(x.ctx, ast.Store):
+                                defs.setdefault(x.id, []).append(n.value)
+            elif isinstance(n, (ast.AugAssign, ast.AnnAssign)) and isinstance(n.target, ast.Name) and n.value is not None:
+                defs.setdefault(n.target.id, []).append(n.value)
+            elif isinstance(n, (ast.For, ast.comprehension)):
+                for x in ast.walk(n.target):
+                    if isinstance(x, ast.Name):
+                        defs.setdefault(x.id, []).append(n.iter)
+        hard_leaves: List[str] = []
+        soft_leaves: List[str] = []
+        busy: Set[str] = set()
+
+        def is_det(e: ast.AST) -> bool:
+            if isinstance(e, ast.Constant):
+                return True
+            if core.src(e) in det_exprs:
+                return True
+            if isinstance(e, ast.Name):
+                if e.id in det_names:
+                    return True
+                if e.id in params:
+                    hard_leaves.append(e.id)
+                    return False
+                if e.id in globs:
+                    return True          # the memo's own variables
+                if e.id not in local_names:
+                    return True          # module-level name / builtin
+                if e.id in busy:
+                    return True
+                busy.add(e.id)
+                ok = all(is_det(v) for v in defs.get(e.id, [])) and bool(defs.get(e.id))
+                busy.discard(e.id)
+                return ok
+            if isinstance(e, ast.Attribute):
+                if core.src(e.value) in id_owners:
+                    soft_leaves.append(core.src(e))       # another attribute of a record whose identity attribute is in the key
+                    return False
+                return is_det(e.value)
+            if isinstance(e, ast.Subscript):
+                if isinstance(e.value, ast.Name) and e.value.id in params and e.value.id not in det_names and isinstance(e.slice, ast.Constant):
+                    hard_leaves.append(core.src(e))
+                    return False
+                return is_det(e.value) and (isinstance(e.slice, ast.Slice) or is_det(e.slice))
+            if isinstance(e, ast.Call):
+                f_ok = isinstance(e.func, ast.Name) and e.func.id not in local_names or (isinstance(e.func, ast.Attribute) and is_det(e.func.value))
+                return bool(f_ok) and all(is_det(a.value if isinstance(a, ast.Starred) else a) for a in e.args) and all(is_det(k.value) for k in e.keywords)
+            if isinstance(e, (ast.BinOp, ast.UnaryOp, ast.BoolOp, ast.Compare, ast.IfExp, ast.Tuple, ast.List, ast.JoinedStr, ast.FormattedValue)):
+                return all(is_det(c) for c in ast.iter_child_nodes(e) if isinstance(c, ast.expr))
+            hard_leaves.append(core.src(e)[:30])
+            return False
+        all_ok = True
+        for n in ast.walk(fn):
+            if isinstance(n, ast.Assign) and any(isinstance(t, ast.Name) and t.id in globs for t in n.targets):
+                if not is_det(n.value):
+                    all_ok = False
+        if all_ok:
+            return problems
+        hard = sorted({h for h in hard_leaves if h})
+        if hard:
+            problems.append(f"the remembered value is computed from {hard[:4]}, which the key `{core.src(key_assign.value)}` does not determine")
+        else:
+            problems.append(f"UNDECIDED: the remembered value also uses {sorted(set(soft_leaves))[:3]}; the key holds only the identity attribute of that record")
         return problems
     for prm in params:
         key_fields: Set[object] = set()
